@@ -1,18 +1,38 @@
 UNITS = {
+    # virtual package zz_verif/c10loop (+ export shims zz_verif_c10_export.go in pkg/controller/pod and pkg/controller/pod-eni)
     "c10loop": dict(pkg="./zz_verif/c10loop", tags="default_build", shrinktime="40s"),
 }
 
 PROPS = {
     "C10": dict(
         level="exploration",
-        technique="property-based testing (rapid): generated pod/controller/fault histories over the real pod and PodENI reconcilers, "
-                  "checked by a phase-edge recorder, a call-time liveness monitor on the simulated cloud and end-state ledgers",
-        rule="placeholder",
-        assumptions=[],
-        level_text="placeholder",
-        level_note="placeholder",
-        tests=[dict(unit="c10loop", test="TestVerifC10ClosedLoop", quick=1200, thorough=40000),
+        technique="property-based testing (rapid): generated pod-lifecycle / reconcile-order / fault histories over the real ReconcilePod and "
+                  "ReconcilePodENI (incl. gcCRPodENIs, gcSecondaryENI, gcMemberENI as actions) on one controller-runtime fake client and an ECS simulator; "
+                  "oracles: phase-edge recorder on every PodENI write, call-time liveness monitor on every Detach/Delete, interface/record ledger at every step, end state after settling",
+        rule="a case = cluster config (trunk on/off, CRD mode, IP stack, network cards, apparent age of created interfaces) + 1..3 pod names with 1..2 interfaces each "
+             "(elastic / fixed TTL / fixed Never, mixed) + a history of about 20 steps (thorough 30) drawn as a shrinkable list: create/delete(terminating)/sandbox-exit/gone per pod "
+             "with a drawn node (same name, new UID, same or other node), ReconcilePod(name), ReconcilePodENI(name), gcCR, gcSecondary, gcMember, each reconcile step with an optional "
+             "cloud fault mask (Create/Attach/Detach/Delete per interface slot, Describe, DescribeVSwitch), API fault mask (Get pod/node/record, List, Create, Update, Patch, status Update/Patch, Delete; "
+             "internal error or conflict) and an optional action executed INSIDE the step's first cloud call (pod leaves, or the other controller runs); then faults off and 8 settle rounds. "
+             "Non-trivial = the history recreates a pod under a used name, or a fault hits between interface creation and record creation (rollback runs), or a pod leaves while its record is "
+             "Initial/Binding (deletion racing attachment). distinct = distinct scenario hash",
+        assumptions=[
+            "documented machine = the diagram in pkg/apis/network.alibabacloud.com/v1beta1/types.go: Initial->Bind, Bind->Detaching, Detaching->Unbind, Unbind->Binding, Binding->Bind, any->Deleting; "
+            "a record is removed only from Deleting or with deletionTimestamp set; identical rewrites are ignored; 'bound' additionally means the interfaces are attached to status.instanceID",
+            "a pod is 'still running' iff a pod object with the record's namespace/name and the UID in the record's pod-uid annotation exists and its phase is neither Succeeded nor Failed "
+            "(utils.PodSandboxExited); a terminating pod (deletionTimestamp set) is still running",
+            "cloud contract modelled from pkg/aliyun/client: Detach of a missing/unattached interface succeeds (the real client maps InvalidEniId.NotFound to nil), Delete of an in-use interface fails with "
+            "InvalidOperation.InvalidEniState, Delete of a missing interface and a repeated Attach to the same instance succeed, attach/detach complete instantly; injected errors have no effect on the cloud "
+            "(fail-before-effect only)",
+            "an interface whose rollback delete was itself failed by injection may remain without a record (nothing could delete it; it carries the controller tags for the leak collector) - counted under label leak:rollback-delete-failed",
+        ],
+        level_text="about 3000 generated histories per quick run (60000 thorough) of the two real reconcilers in every drawn order with cloud and API faults, each step checked; exploration, not proof",
+        level_note="the controllers read through the same client they write (no informer-cache staleness); the two controllers run sequentially except for one drawn action nested inside a cloud call; "
+                   "work-queue retry timing, leader election, the daemon side of pkg/eni/remote.go and real ECS asynchrony are not modelled; error results after a cloud effect (timeouts) are not injected; "
+                   "liveness is only checked as bounded settling (8 rounds)",
+        tests=[dict(unit="c10loop", test="TestVerifC10ClosedLoop", quick=3000, thorough=60000),
                dict(unit="c10loop", test="TestVerifC10KnownDetachingFromNonBind", quick=1, thorough=1, shards=1),
+               dict(unit="c10loop", test="TestVerifC10KnownDetachingFromUnbind", quick=1, thorough=1, shards=1),
                dict(unit="c10loop", test="TestVerifC10KnownRollbackStops", quick=1, thorough=1, shards=1)],
     ),
 }
